@@ -159,7 +159,8 @@ func (w *tokWriter) extra() {
 			w.dsc("%%+ continued > ] def")
 		}
 	case DSCOdd:
-		w.dsc([]string{"%%", "%% x", "%%:y", "%%+ z", "%%%", "%%%%BoundingBox: 0 0 1 1"}[w.n%6])
+		// (also the structured comments that mean "the document ends here" to a spooler: to the interpreter they are comments)
+		w.dsc([]string{"%%", "%%EOF", "%% x", "%%Trailer", "%%:y", "%%EndResource", "%%+ z", "%%EOF:", "%%%", "%%EndProlog", "%%%%BoundingBox: 0 0 1 1"}[w.n%11])
 	}
 	switch w.l.Comments {
 	case CommentsLines:
